@@ -667,7 +667,7 @@ func (r *runner) verdicts(cs Case, rep int, c *concrete, wide bool) {
 				}, false)
 		}
 	}
-	if rep != 0 {
+	if rep != 0 || (len(cs.Hist) >= 2 && cs.ID%4 != 0) { // the routes below do not depend on how deep the tampering went: every fourth longer case
 		return
 	}
 	// helm pull with every combination of --verify and --prov, from a loopback server
